@@ -224,6 +224,15 @@ def step (d : DState) (line : String) : DState × String :=
       let (s', _) := CharonV.ParSigDB.step d.cfg d.st (.trim du)
       ({ d with st := s' }, "- | " ++ snapStr d s')
     | none => (d, "bad-op")
+  | "gpar" :: rest =>
+    -- a forced interleaving of two calls is one of the interleavings of `par`
+    match (" ".intercalate rest).splitOn " ; " with
+    | [a, b] =>
+      match parseCall ((a.splitOn " ").filter (fun s => !s.isEmpty)),
+            parseCall ((b.splitOn " ").filter (fun s => !s.isEmpty)) with
+      | some ca, some cb => doCalls d [ca, cb] target
+      | _, _ => (d, "bad-op")
+    | _ => (d, "bad-op")
   | "par" :: rest =>
     match (" ".intercalate rest).splitOn " ; " with
     | [a, b] =>
